@@ -942,7 +942,7 @@ class Evaluator:
                 if other is None or isinstance(other, (Ref, Closure, Rec, str, bool, list, tuple, dict)) or (isinstance(other, Poly) and other.is_const()):
                     return not isinstance(op, ast.Is)
                 oat_ = other.as_atom() if isinstance(other, Poly) else None
-                if isinstance(other, Poly) and (oat_ is None or (isinstance(oat_, tuple) and oat_ and oat_[0] in ('[]', '.', 'call'))):
+                if isinstance(other, Poly) and (oat_ is None or isinstance(oat_, str) or (isinstance(oat_, tuple) and oat_ and oat_[0] in ('[]', '.', 'call'))):
                     return not isinstance(op, ast.Is)          # something read from the inputs / computed is never the module's private marker object
                 if isinstance(other, Opq) and other.k and other.k[0] == 'dispatch' and isinstance(other.k[1], dict) and not any(_sentinel(v_) is not None for v_ in other.k[1].values()):
                     return not isinstance(op, ast.Is)
@@ -2604,6 +2604,13 @@ class Evaluator:
                     _merge(env, g, e1, e2, s)
                     continue
                 e1, e2 = _fork(env), _fork(env)
+                # locals computed as `g ? a : b` with this very test are, inside each arm, the arm's value (x = d.get(k, MISSING); if x is MISSING: return ...)
+                for env_, pol_ in ((e1, True), (e2, False)):          # (the forked top scope only: enclosing scopes are shared between the arms)
+                    g_, p_ = g, pol_
+                    if isinstance(g_, Opq) and g_.k and g_.k[0] == 'not': g_, p_ = g_.k[1], not p_
+                    if not isinstance(g_, bool):
+                        for nm_, v_ in list(env_.items()):
+                            if nm_ != '__parent__' and isinstance(v_, Cond) and same(v_.g, g_): env_[nm_] = v_.a if p_ else v_.b
                 st0 = dict(s.stores)
                 s._undecided += 1; s._scoped += 1
                 snap = s._snap(); after1 = after2 = None
